@@ -82,7 +82,7 @@ def genC03Cases (tier : String) (seed : Nat) : Array Case := Id.run do
   for i in [0:n] do
     -- top-level pair combinations; every third statement also nests statements, which may
     -- themselves contain a pair combination
-    let cfg : NestCfg := { depth := if i % 3 = 0 then 1 else 0, pairs := true, nestedPairs := i % 3 = 0 }
+    let cfg : NestCfg := { depth := if i % 3 = 0 then 1 else 0, pairs := true, nestedPairs := i % 3 = 0, groupNested := i % 3 = 1 }
     let (s, rng') := genNestedSup cfg rng
     rng := rng'
     let c := parseCase s!"c03-r{i}" (if supported s then "pairs-supported" else "pairs-unsupported") s
